@@ -5,7 +5,7 @@ import CookModel.Num.Convert
     `GroupedQuantity::{empty, add, merge, fit, iter, absorb}`, `GroupedValue::{add, merge}`.
 
   `absorb` is the converter-free merge added by the repair of DESIGN.md §8 item 8
-  (fixes/0003: `IngredientList::categorize` overwrote an entry when two listed names share an
+  (fixes/0001-fix-categorize-…: `IngredientList::categorize` overwrote an entry when two listed names share an
   aisle common name).
 
   Representation:
@@ -101,10 +101,10 @@ def empty : GroupedQuantity α := ⟨fun _ => none, [], none, []⟩
 def setKnown (g : GroupedQuantity α) (pq : PhysQ) (q : SQuantity α) : GroupedQuantity α :=
   { g with known := fun p => if p = pq then some q else g.known p }
 
-/-- `*stored = q` through `unknown.get_mut(key)` -/
-def replaceUnknown (l : List (Str × SQuantity α)) (key : Str) (q : SQuantity α) :
-    List (Str × SQuantity α) :=
-  l.map (fun e => if e.1 = key then (e.1, q) else e)
+/-- `*stored = q` through `unknown.get_mut(key)`: the entry that `lookup` finds is overwritten -/
+def replaceUnknown : List (Str × SQuantity α) → Str → SQuantity α → List (Str × SQuantity α)
+  | [], _, _ => []
+  | e :: rest, key, q => if key == e.1 then (e.1, q) :: rest else e :: replaceUnknown rest key q
 
 def pushOther (g : GroupedQuantity α) (q : SQuantity α) : GroupedQuantity α :=
   { g with other := g.other ++ [q] }
